@@ -263,6 +263,29 @@ def ident_check(ax, case, rec):
             free = ~fixed.all(0)
             ok &= bool(free.sum() == 1 and fixed[:, ~free].all())
         rec.require("vtk-edge-groups", ok)
+        # edge / face sequence: block k is centred where the quadratic serendipity / Lagrange cell of the same
+        # dimension has its k-th mid-edge / mid-face node, and runs from the first to the second vertex of the edge
+        VTK_EDGES = [(0, 1), (1, 2), (2, 3), (3, 0), (4, 5), (5, 6), (6, 7), (7, 4), (0, 4), (1, 5), (2, 6), (3, 7)][:ne]
+        if m > 0:
+            q2 = np.asarray((fem.element.QuadraticQuad() if kw["dim"] == 2 else fem.element.QuadraticHexahedron()).points, float)
+            okc, okd = True, True
+            for k, (a, b) in enumerate(VTK_EDGES):
+                blk = P[nv + k * m : nv + (k + 1) * m]
+                okc &= bool(np.abs(blk.mean(0) - q2[nv + k]).max() < 1e-12)
+                okc &= bool(np.abs(q2[nv + k] - 0.5 * (base[a] + base[b])).max() < 1e-12)
+                if m > 1:
+                    d = np.diff(blk @ (base[b] - base[a]))
+                    okd &= bool(np.all(d > 0) or np.all(d < 0))  # monotone along the edge (VTK: increasing parametric coordinate)
+            rec.require("vtk-edge-sequence", okc)
+            rec.require("vtk-edge-monotone", okd)
+            nfc = 1 if kw["dim"] == 2 else 6
+            q3 = np.asarray((fem.element.BiQuadraticQuad() if kw["dim"] == 2 else fem.element.TriQuadraticHexahedron()).points, float)
+            mf = m * m
+            okf = True
+            for k in range(nfc):
+                blk = P[nv + ne * m + k * mf : nv + ne * m + (k + 1) * mf]
+                okf &= bool(np.abs(blk.mean(0) - q3[nv + ne + k]).max() < 1e-12)
+            rec.require("vtk-face-sequence", okf)
 
 
 # ------------------------------------------------------------------------------------------------
